@@ -68,11 +68,14 @@ CLAIMS["C08"] = dict(
         "frame just received, and only when all four CPR fields are non-zero, both slots were filled by airborne frames (or both by surface "
         "frames), the receive times are < 10 whole seconds apart, the two candidate latitudes are in the same NL zone and the result is in "
         "range; distance = the configured distance function of that position; frames of other formats leave position state unchanged. "
+        "cpr_location, nl, pmod, fixed_lat, signed_lon themselves are regenerated from position.rs on every run (f64 as exact rationals) and "
+        "proved equal to that model for every argument (Proofs/BridgeCpr.lean: cpr_location_eq), incl. the saturating `as i32` and the f64 `%`; "
+        "their trap-freedom for one-bit formats and coefficients 1 / 4 is proved (Proofs/SafeCpr.lean). "
         "Arithmetic (Props/C08Math.lean, exact rationals): see DESIGN 5.8. Correspondence and oracle: histories stratified over every NL "
         "transition latitude, zone edges, antimeridian, delays around 10 s, interleaved and surface frames; shown position within 20 m of truth.",
    note="partial: the 20 m clause and the great-circle distance involve f64 trigonometry and are compared numerically on every generated history, "
-        "not proved; the model evaluates cpr_location in exact rationals, the code in f64 (compared to 1e-9 deg). trusted: Lean kernel and "
-        "standard axioms; harness; NL table extractor.",
+        "not proved; the model and the translated code evaluate cpr_location in exact rationals, the compiled code in f64 (compared to 1e-9 deg). "
+        "trusted: Lean kernel and standard axioms; harness.",
    technique="Lean 4 proof (state machine + exact-rational CPR arithmetic) + model/implementation correspondence + encode-side oracle", ref="5.8")
 CLAIMS["C09"] = dict(
    text="Lean 4 theorems (Props/C09.lean), for every atan2deg function: trackAndGroundspeed and verticalRate are the specification's functions of "
